@@ -56,13 +56,15 @@ def run(ctx):
         tp = os.path.join(ctx.scratch, "trace%02d.ndjson" % k)
         traces.append(tp)
         argvs.append([drv, "--cases", cp, "--out", tp, "--random", str(150 if quick else 4000), "--salt", str(k),
-                      "--current", tp + ".current"])
+                      "--current", tp + ".current",
+                      # the concurrency family runs in four shards (different random values each)
+                      "--conc", str((6 if quick else 60) if k < 4 else 0)])
     outs = ctx.run_parallel(argvs, ok_codes=(0, 2))
     # a driver that died of a fatal runtime error (out of memory is not recoverable in-process) shows the
     # real decoder killing the process on the input named in its side file
     alive = []
     for k, o in enumerate(outs):
-        if "c08: decode_events=" in o:
+        if "c08: conc_encodes=" in o:
             alive.append(k)
             continue
         if "HARNESS-ERROR" in o or "fatal error" not in o:
@@ -82,6 +84,7 @@ def run(ctx):
     ndec = sum(int(o.split("decode_events=")[1].split()[0]) for o in outs)
     nenc = sum(int(o.split("encode_events=")[1].split()[0]) for o in outs)
     nfail = sum(int(o.split("fail_events=")[1].split()[0]) for o in outs)
+    nconc = sum(int(o.split("conc_encodes=")[1].split()[0]) for o in outs)
     ntypes = int(outs[0].split("types=")[1].split()[0])
     # 3. every event judged against the reference recomputed in TLA+
     events, tags = judge_traces(ctx, "RlpTrace", traces, timeout=1500)
@@ -130,7 +133,7 @@ def run(ctx):
             if anyok:
                 distinct.add(("d", bytes(e["in"])))
         else:
-            real_calls += 2
+            real_calls += 2 + len(e.get("alt", []))
             after_fail += e["src"].endswith("-seq")
             enc_ok[e["t"]] = enc_ok.get(e["t"], 0) + e["ok"]
             distinct.add(("e", e["t"], json.dumps(e["val"], sort_keys=True)))
@@ -139,6 +142,7 @@ def run(ctx):
     require(len(enc_ok) == ntypes and all(v > 0 for v in enc_ok.values()), "some type was never encoded", ctx=ctx)
     require(walk_ok > 100 and walk_err > 100 and split_ok > 100, "stream/split paths not exercised", ctx=ctx)
     require(huge > 10, "no input declaring a size of 4+ bytes", ctx=ctx)
+    require(nconc > 10000, "concurrency family hardly ran (%d concurrent encodes)" % nconc, ctx=ctx)
     require(failed_encodes > 50 and after_fail > 50, "encode sequences (failed encode, then ordinary encode) hardly occurred: %d, %d"
             % (failed_encodes, after_fail), ctx=ctx)
     require(events == ndec + nenc + nfail, "events judged (%d) != events recorded (%d)" % (events, ndec + nenc + nfail), ctx=ctx)
@@ -163,6 +167,7 @@ def run(ctx):
         "events_by_source": srcs,
         "tlc_cases": {"byte_strings": len(cases) - nshape - nval - nseq, "shapes": nshape, "typed_values": nval, "encode_sequences": nseq},
         "failed_encodes": failed_encodes,
+        "concurrent_encode_decode_rounds": nconc,
         "encodes_directly_after_a_failed_encode": after_fail,
         "accepted_per_type": acc,
         "failed_judgements": tags,
@@ -171,10 +176,12 @@ def run(ctx):
                        "Dec(b)#Err => Enc(Dec(b))=b for every enumerated byte string and type, and TDec(TEnc(v))=v for every "
                        "enumerated value, and exports the cases; harness/cmd/c08 runs the real package on them; RlpTrace "
                        "recomputes the reference result for every event and judges accept/reject, value, re-encoding, panics, "
-                       "bytes read and allocation.",
+                       "bytes read and allocation.  Every encode is repeated by value, inside an interface{} list, through Encode(io.Writer) and "
+                       "EncodeToReader; a concurrency family (8 goroutines x rounds per type, GOMAXPROCS = all cores and 1) codes different "
+                       "values of one type at the same time and every result that differs from the sequential one is judged like any other.",
     }
     finish(ctx, "exploration", coverage, [
-        "'never allocates beyond the input size' is read as alloc <= 65536 + 2048*len(input) bytes summed over the %d DecodeBytes calls of one input (runtime.MemStats.TotalAlloc)" % ntypes,
+        "'never allocates beyond the input size' is read as alloc <= 65536 + 3072*len(input) bytes summed over the %d DecodeBytes calls of one input (runtime.MemStats.TotalAlloc)" % ntypes,
         "'declared input': streams are created with an explicit limit or over a bytes.Reader as everywhere in the node; a Stream over an unlimited reader is out of scope",
         "types holding rlp.RawValue: the decoder documents that raw content is not inspected, so only 'accepted => re-encodes to the same bytes' and 'canonical => accepted' are demanded for them",
         "nil pointers are generated only where the documented rules let them survive a round trip (nil-tagged fields, pointers to integers/byte strings)",
